@@ -1,8 +1,26 @@
+//! Harness over the store's transaction provider, the causal orderer and the processor streams.
+//!
+//! C10 transactions atomic/serialized under any abort point, C11 causal orderer releases after and
+//! always after dependencies, C12 released items survive cancellation of `next`, C13 processor
+//! streams deliver exactly once and in order.
+
+mod c10;
+mod c11;
+mod c12;
+mod c13;
+mod graph;
+mod poll;
+mod probe;
+
 use vh_common::Args;
 
 fn main() {
     let args = Args::parse();
     match args.prop.as_str() {
-        other => panic!("vh-stream does not serve {other} yet"),
+        "C10" => c10::run(&args),
+        "C11" => c11::run(&args),
+        "C12" => c12::run(&args),
+        "C13" => c13::run(&args),
+        other => panic!("vh-stream does not serve {other}"),
     }
 }
